@@ -2,6 +2,7 @@
 From Coq Require Import List NArith ZArith Bool Arith String.
 Import ListNotations.
 Require Import Emit EmitLemmas.
+Require EmitSafe EmitChars EmitBreaks.
 
 (* KIND C15_options_normalised : U *)
 (* for EVERY requested canonical/allow_unicode/indent/width/line_break: the effective indent is the requested one iff it is between 2 and 9, else 2;
@@ -28,5 +29,50 @@ Eval vm_compute in "ASSUME:C15_indent_stack_multiples"%string. Print Assumptions
 Theorem C15_indent_stack_initial : forall canon uni ind width lb, ind_ok (init canon uni ind width lb).
 Proof. exact l_init_ind_ok. Qed.
 
-(* PARTIAL: ascii_only, line_breaks_requested, markers_and_directives, result_type, output_rereadable_chars and canonical_parse are not proved on the
+(* KIND C15_ascii_only_without_allow_unicode : U *)
+(* for EVERY list of events - well-formed or not, any scalar contents, tags, anchors, %TAG directives - and every option set with allow_unicode
+   off (canonical, indent, width, line break arbitrary): every chunk the emitter model writes, also before an EmitterError, consists of
+   printable ASCII (32..126), CR and LF only.  Proofs/EmitChars.v: the analysis allows a style other than double-quoted only for texts that are
+   clean; the double-quoted writer copies only unescaped printable ASCII between two escapes; prepared anchors, handles, prefixes and tags
+   are alphanumeric / URI characters / %XX escapes; the table of tag handles holds validated handles only *)
+Theorem C15_ascii_only_without_allow_unicode : forall evs canon ind width lb,
+  forallb EmitChars.okd (fst (emit_all evs (init canon false ind width lb))) = true.
+Proof. exact EmitChars.ascii_only_without_allow_unicode. Qed.
+Eval vm_compute in "ASSUME:C15_ascii_only_without_allow_unicode"%string. Print Assumptions C15_ascii_only_without_allow_unicode.
+(* KIND C15_output_defined_for_every_stream : U *)
+(* and the run that writes them never crashes: for every event list and option set the emitter model ends with text or an EmitterError *)
+Theorem C15_output_defined_for_every_stream : forall evs canon allow_uni ind width lb,
+  EmitSafe.fine (snd (emit_all evs (init canon allow_uni ind width lb))).
+Proof. exact EmitSafe.emitter_never_crashes. Qed.
+Eval vm_compute in "ASSUME:C15_output_defined_for_every_stream"%string. Print Assumptions C15_output_defined_for_every_stream.
+(* KIND C15_unicode_only_on_request : F *)
+(* non-vacuity: the same stream holds a non-ASCII character with allow_unicode on and its \xE9 escape with allow_unicode off *)
+Example C15_unicode_only_on_request :
+  let evs := [EStreamStart; EDocStart false None []; EScalar None None true false [233%N] None; EDocEnd false; EStreamEnd] in
+  forallb EmitChars.okd (fst (emit_all evs (init false true None None [10%N]))) = false /\
+  fst (emit_all evs (init false false None None [10%N])) = [[33%N]; [32; 34]%N; [92; 120; 69; 57]%N; [34%N]; [10%N]].
+Proof. exact EmitChars.unicode_is_written_only_on_request. Qed.
+
+(* KIND C15_line_breaks_are_the_requested_one : U *)
+(* for EVERY list of events and EVERY option set (allow_unicode on or off, any canonical / indent / width / line_break request): each chunk the
+   emitter model hands to the stream - also before an EmitterError - is either the effective line break itself (CR, LF or CR LF as requested,
+   C15_options_normalised) or contains neither CR nor LF.  So every CR and LF of the output belongs to a requested line break.
+   Proofs/EmitBreaks.v: a piece of text handed over outside the writers' "breaks" mode holds no break character (index invariants of the
+   single-quoted, folded and literal loops), line feeds of the text are written through write_line_break, a CR makes the analysis choose
+   the double-quoted style, which escapes it *)
+Theorem C15_line_breaks_are_the_requested_one : forall evs canon allow_uni ind width lb,
+  let s0 := init canon allow_uni ind width lb in
+  Forall (fun d => d = best_lb s0 \/ EmitBreaks.okd d = true) (fst (emit_all evs s0)).
+Proof. exact EmitBreaks.line_breaks_are_the_requested_one. Qed.
+Eval vm_compute in "ASSUME:C15_line_breaks_are_the_requested_one"%string. Print Assumptions C15_line_breaks_are_the_requested_one.
+(* KIND C15_line_break_example : F *)
+(* a literal text with LF under line_break CR LF: the LF is written as CR LF; CR and NEL in a plain-looking text are escaped *)
+Example C15_line_break_example :
+  let evs := [EStreamStart; EDocStart false None []; EScalar None None true true [97; 10; 98]%N (Some StLiteral); EDocEnd false;
+              EDocStart true None []; EScalar None None true true [97; 13; 133; 98]%N None; EDocEnd false; EStreamEnd] in
+  fst (emit_all evs (init false true None None [13; 10]%N)) =
+  [[124; 45]%N; [13; 10]%N; [32; 32]%N; [97%N]; [13; 10]%N; [32; 32]%N; [98%N]; [13; 10]%N; [45; 45; 45]%N; [32; 34]%N; [97%N]; [92; 114]%N; [92; 78]%N; [98%N]; [34%N]; [13; 10]%N].
+Proof. exact EmitBreaks.line_break_example. Qed.
+
+(* PARTIAL: markers_and_directives, result_type, output_rereadable_chars and canonical_parse are not proved on the
    emitter model; decided by the exact-text emitter correspondence and the direct text-level checker over the option product (both emitters). *)
